@@ -150,6 +150,9 @@ def schema_bij(ctx: Ctx, chk) -> None:
         where = c
     else:
         where = save.node
+        # neither a loop that fills a dict nor a dict comprehension in save (the records are built by an object /
+        # helper that is not written out): nothing here says the records are wrong - layout not modelled
+        raise AnalysisError(f"SCHEMA-BIJ: Persistence.save builds its records neither in a loop nor in a dict comprehension of its own ({len(st)} keyed stores, {len(loops)} loops, {len(comps)} comprehensions): layout not modelled")
     if ok:
         chk.ok(rule, f"{save.fq}::records", "data[node.node_id] = schema.dump(node) for every node", ctx.loc(save, where))
     else:
@@ -407,7 +410,7 @@ def value_within(ctx: Ctx, f: FuncInfo, node: ast.AST, val: ast.expr, lo, hi):
         tr_ = None
     if tr_ is not None:
         for n_ in ast.walk(tr_):
-            if isinstance(n_, ast.Call):
+            if isinstance(n_, ast.Call) and not isinstance(n_.func, ast.Lambda):
                 nm_ = n_.func.id if isinstance(n_.func, ast.Name) else n_.func.attr if isinstance(n_.func, ast.Attribute) else ""
                 if nm_ not in ("int", "float", "round", "str", "len", "min", "max", "abs", "bool", "next", "iter", "range", "sorted", "sum", "divmod", "pow", "get", "keys", "values", "items", "strip", "lstrip", "rstrip", "split", "trunc", "floor", "ceil"):
                     raise AnalysisError(f"VALID-SYM: the value stored at {ctx.loc(f, val)} is `{c[:70]}`: what `{nm_}(...)` returns is not modelled by the range argument")
